@@ -12,7 +12,7 @@ use crate::tr::*;
 
 pub const ENTRY: Entry = Entry {
     id: "C06",
-    variants: &["batch"],
+    variants: &["batch", "nobatch"],
     level: "model_checking",
     rule: "real SpiInterface over the virtual SPI device and DC pin, staging buffer pre-poisoned: pixel width N in {2,3} x buffer \
            length L in [N, 4N+1] + {16, 31, 64} x every history of <= 2 calls (<= 3 for L <= 2N+1) over the alphabet \
@@ -45,6 +45,12 @@ pub fn alphabet(n: usize, l: usize, slot: usize) -> Vec<TCall> {
             words: (0..k * n).map(|i| byte_of(slot, i) as u16).collect(),
             after: (0..2 * n).map(|i| 0xD0 + i as u16).collect(),
         });
+    }
+    // pixel sources whose size_hint upper bound exceeds what they yield
+    for k in [0usize, 1, cap.saturating_sub(1), cap, cap + 1, 2 * cap + 1] {
+        for extra in [1u32, 2, cap as u32 + 1] {
+            v.push(TCall::PixelsLoose { n: n as u8, words: (0..k * n).map(|i| byte_of(slot, i) as u16).collect(), extra });
+        }
     }
     for pix in 0..2usize {
         let pixel: Vec<u16> = (0..n).map(|i| byte_of(slot, 50 + pix * 5 + i * (1 - pix)) as u16).collect();
@@ -92,6 +98,7 @@ pub fn run_history(n: usize, l: usize, hist: &[TCall]) -> HistObs {
             TCall::Cmd { .. } => "send_command",
             TCall::Pixels { .. } => "send_pixels",
             TCall::PixelsUnfused { .. } => "send_pixels(unfused source)",
+            TCall::PixelsLoose { .. } => "send_pixels(loose size hint)",
             TCall::Repeat { count, .. } => {
                 if *count == 0 {
                     "send_repeated_pixel(count=0)"
@@ -275,6 +282,13 @@ fn run(ctx: &Ctx) -> Part {
         (2, 0x8000_0001, [0xFF, 0xFF, 0], 4095),
         (3, 1_431_655_766, [0x3C, 0x3C, 0x3C], 4096),
         (2, 0x8000_0000, [0x12, 0x34, 0], 64),
+        // staging buffers of 64 KiB and more (transfer lengths that do not fit 16 bits)
+        (2, 32767, [0x12, 0x34, 0], 65536),
+        (2, 32768, [0x12, 0x34, 0], 65536),
+        (2, 32769, [0xAB, 0xAB, 0], 65537),
+        (2, 100_000, [0x12, 0x34, 0], 70_000),
+        (3, 21_846, [0x01, 0x02, 0x03], 65_536),
+        (3, 50_000, [0x01, 0x02, 0x03], 131_072),
     ];
     let ex = extremes
         .par_iter()
